@@ -50,6 +50,15 @@ def transfers(config):
             ["transfer", wl, "Q", ["C02", "A01", "C02"], "U", ["A01", "A03", "A01"], [v, v + 1, v + 2], {}],
             ["transfer", wl, "T", "A01", "Q", {"$w2d": ["Q", 0, 3, 0, 2]}, {"$a": [[v, v + 1], [v + 2, v + 3], [v + 4, v + 5]]}, {}],
         ]
+    # distribute: the source column is charged once per listed destination well (repeats and trough aliases included)
+    for wl in ("e", "f"):
+        ev += [
+            ["distribute", wl, "T", 0, "P", ["A01", "B02", "A03"], {"volume": v}],
+            ["distribute", wl, "T", 1, "Q", ["C02", "C02", "A01"], {"volume": v + 1}],
+            ["distribute", wl, "T", 0, "U", ["A01", "A03"], {"volume": v}],
+            ["distribute", wl, "T", 1, "T", ["A01", "B01", "C01"], {"volume": v}],
+            ["distribute", wl, "T", 0, "Q", {"$w2d": ["Q", 0, 3, 0, 2]}, {"volume": v + 2}],
+        ]
     return ev
 
 
@@ -168,6 +177,8 @@ class Harness(cm.BaseA):
             W["path"] = W["path"] + [ev]
         if op == "transfer":
             return self.step_transfer(W, ev, config)
+        if op == "distribute":
+            return self.step_distribute(W, ev, config)
         lw, wells, vols = (ev[1], ev[2], ev[3]) if op in ("add", "remove") else (ev[2], ev[3], ev[4])
         pre = {n: L.volumes for n, L in W["lw"].items()}
         shared0 = {k: a.copy() for k, a in W.get("shared", {}).items()}
@@ -238,4 +249,27 @@ class Harness(cm.BaseA):
                 if bad:
                     V.append(("C04/ledger", f"transfer {src}->{dst} via {wl}: {n} (well, exact, reported) {bad[:4]}"))
             res["nontrivial"] = self.canon(W, config) + b"t"
+        return res
+
+    def step_distribute(self, W, ev, config):
+        _, wl, src, col, dst, dw, kw = ev
+        out, exc = exec_event(W, ev)
+        for w in W["wl"].values():
+            del w[:]
+        post = {n: L.volumes for n, L in W["lw"].items()}
+        res = {"outcome": f"distribute:{out}", "violations": [], "expand": False}
+        V = res["violations"]
+        led = W["ledger"]
+        if out == "ok":
+            g = geo_of(cm.spec_of(config, dst))
+            wells = flat_f(ref_wells(dw, config))
+            v = Fraction(kw["volume"])
+            led[src][(0, col)] -= v * len(wells)
+            for w_ in wells:
+                led[dst][g.real(w_)] += v
+            for n in post:
+                bad = [(well_id(*c), float(x), float(post[n][c])) for c, x in led[n].items() if Fraction(float(post[n][c])) != x]
+                if bad:
+                    V.append(("C04/ledger", f"distribute {src}[{col}]->{dst} {wells} via {wl}: {n} (well, exact, reported) {bad[:4]}"))
+            res["nontrivial"] = self.canon(W, config) + b"d"
         return res
